@@ -36,19 +36,20 @@ type c12Order struct {
 type C12Oracle struct {
 	NopOracle
 	orders map[uint64]*c12Order
+	pend   map[uint64]*c12Order // accepted but not yet handed to providers (status Pending)
 	N      int64
 	Events map[string]int
 }
 
-func NewC12() *C12Oracle { return &C12Oracle{orders: map[uint64]*c12Order{}, Events: map[string]int{}} }
+func NewC12() *C12Oracle { return &C12Oracle{orders: map[uint64]*c12Order{}, pend: map[uint64]*c12Order{}, Events: map[string]int{}} }
 
 func (o *C12Oracle) Name() string { return "C12" }
 
 func (o *C12Oracle) AfterAction(s *Sim, a *Action, pre, post *chain.Snapshot, res *chain.TxResult) {
 	if a.Kind == "store" && res.OK {
 		ord, ok := post.Orders[a.Order]
-		if !ok || ord.Status != ordertypes.OrderDataReady {
-			return // not handed to providers
+		if !ok {
+			return
 		}
 		payer := ""
 		for _, acc := range s.W.Accounts {
@@ -60,9 +61,29 @@ func (o *C12Oracle) AfterAction(s *Sim, a *Action, pre, post *chain.Snapshot, re
 		if T <= 0 || T > 1<<40 {
 			T = 1 // a negative timeout (wrapped to uint64): there is no interval to wait for
 		}
-		o.orders[a.Order] = &c12Order{id: a.Order, created: s.C.Height, T: T, N: o.N, payer: payer, payerBal0: pre.Bal[payer], charged: ord.Amount.Amount,
+		r := &c12Order{id: a.Order, created: s.C.Height, T: T, N: o.N, payer: payer, payerBal0: pre.Bal[payer], charged: ord.Amount.Amount,
 			size: ord.Size_, duration: ord.Duration, bound: s.C.Height + (10+o.N+2)*T}
-		s.sched[o.orders[a.Order].bound] = true
+		switch ord.Status {
+		case ordertypes.OrderDataReady:
+			o.orders[a.Order] = r
+			s.sched[r.bound] = true
+		case ordertypes.OrderPending:
+			o.pend[a.Order] = r // submitted by the owner's own account: handed to providers only by a later Ready
+		}
+	}
+	if a.Kind == "ready" && res.OK {
+		if r := o.pend[a.Order]; r != nil {
+			if ord, ok := post.Orders[a.Order]; ok && ord.Status == ordertypes.OrderDataReady {
+				delete(o.pend, a.Order)
+				r.created, r.bound = s.C.Height, s.C.Height+(10+o.N+2)*r.T
+				o.orders[a.Order] = r
+				s.sched[r.bound] = true
+				s.Label("c12-handed-over-by-ready")
+				if s.C.Height > int64(ord.CreatedAt)+r.T {
+					s.Label("c12-ready-after-first-interval")
+				}
+			}
+		}
 	}
 	o.check(s, post, false)
 }
@@ -226,7 +247,19 @@ func c12Property(t *rapid.T) {
 		n := rapid.IntRange(3, 5).Draw(t, "providers")
 		cfg.Providers = cfg.Providers[:n]
 		o.N = int64(n)
+		sidOwner := -1
+		if rapid.IntRange(0, 2).Draw(t, "sidWorld") == 0 {
+			cfg.Owners = []int{8} // account 9 is bound to a sid DID instead
+		}
 		s.SetupStorage(cfg, 1_000_000_000)
+		if len(cfg.Owners) == 1 {
+			b := NewAction("bind_sid", 9)
+			b.Ts = 4_000_000_002
+			if s.Do(b).OK {
+				sidOwner = len(s.Dids) - 1
+			}
+		}
+		readyAt := map[uint64]int64{} // pending order -> height at which its gateway sends Ready
 		decided := map[uint64]int64{} // shard id -> height at which it completes (0: stays silent)
 		nOrders := rapid.IntRange(1, 2).Draw(t, "orders")
 		maxBound := int64(0)
@@ -236,6 +269,10 @@ func c12Property(t *rapid.T) {
 				return
 			}
 			a.PayDid, a.Creator, a.MsgProv = -1, a.PropProv, -1
+			viaReady := sidOwner >= 0 && rapid.IntRange(0, 1).Draw(t, "viaReady") == 0
+			if viaReady {
+				a.Owner, a.Signer, a.Creator = sidOwner, -1, 9 // submitted by an account bound to the owner: stays Pending
+			}
 			a.Replica = int32(rapid.IntRange(1, n).Draw(t, "replica"))
 			switch rapid.IntRange(0, 9).Draw(t, "timeoutClass") {
 			case 0:
@@ -255,6 +292,9 @@ func c12Property(t *rapid.T) {
 			if res.OK {
 				if r := o.orders[a.Order]; r != nil && r.bound > maxBound {
 					maxBound = r.bound
+				}
+				if r := o.pend[a.Order]; r != nil {
+					readyAt[a.Order] = s.C.Height + int64(rapid.IntRange(0, 3*int(minI64(r.T, 400))+2).Draw(t, "readyDelay"))
 				}
 			}
 		}
@@ -281,6 +321,20 @@ func c12Property(t *rapid.T) {
 					decided[sh.Id] = s.C.Height + int64(rapid.IntRange(0, int(r.T)+2).Draw(t, "delay"))
 				}
 			}
+			for _, id := range chain.SortedU64(readyAt) {
+				if readyAt[id] > s.C.Height {
+					continue
+				}
+				delete(readyAt, id)
+				if ord, ok := s.Last.Orders[id]; ok && ord.Status == ordertypes.OrderPending {
+					rd := NewAction("ready", s.acctOf(ord.Provider))
+					rd.Order = id
+					s.Do(rd)
+					if r := o.orders[id]; r != nil && r.bound > maxBound {
+						maxBound = r.bound
+					}
+				}
+			}
 			for _, sh := range sortedShards(s.Last) {
 				if sh.Status == ordertypes.ShardWaiting && decided[sh.Id] != 0 && decided[sh.Id] <= s.C.Height {
 					c := NewAction("complete", s.acctOf(sh.Sp))
@@ -293,13 +347,21 @@ func c12Property(t *rapid.T) {
 				nOrders--
 				place()
 			}
-			if s.C.Height > maxBound+3 || guardBlocks > 12000 {
+			if (len(readyAt) == 0 && s.C.Height > maxBound+3) || guardBlocks > 12000 {
 				break
 			}
 			// jump to the next height at which something can happen: a decided completion,
 			// or the block after a scheduled timeout check (new assignments appear there)
 			target := maxBound + 4
+			if maxBound == 0 && len(readyAt) > 0 {
+				target = 1 << 60 // nothing handed over yet: the next event is a Ready
+			}
 			for _, at := range decided {
+				if at > s.C.Height && at < target {
+					target = at
+				}
+			}
+			for _, at := range readyAt {
 				if at > s.C.Height && at < target {
 					target = at
 				}
@@ -366,4 +428,11 @@ func init() {
 		o.N = n
 		replayHistory(s, v.History)
 	}
+}
+
+func minI64(a, b int64) int64 {
+	if a < b {
+		return a
+	}
+	return b
 }
